@@ -498,6 +498,15 @@ def check(prop):
             samples.append(dict(scenario=scen, layout=layout, edge=dict(ver=e["ver"], pre=e["from"], action=e["obs"]["act"], inputs=e["obs"]["inputs"],
                                                                          tr=e["obs"]["tr"], post=e["to"], verdict=e["obs"]["verdict"], touched=e["obs"]["touched"])))
     extra = {}
+    if prop in ("C06", "C08", "C09"):
+        # the mechanism below Fs.tla: io_context.rs as a model over bytes and chunkings (IoCtx.tla)
+        r = run_tlc("IoCtx.tla", os.path.join(SPEC, "IoCtx.cfg"), f"ioctx-{prop}", workers=4, timeout=1800)
+        states += r["states"]
+        trans += r["transitions"]
+        own = dict(VerifyExact="C06", BuildForgets="C08", NeededEquiv="C09", TempNoRewrite="C09")
+        for inv in r["violated"]:
+            if own.get(inv) == prop:
+                rep.violation(f"spec:{inv}", f"TLC: {inv} violated in IoCtx.tla", dict(out=r["out"][-3000:]))
     if prop == "C08":
         extra = crash_points(rep, wd, rng, quick)
     if prop == "C06":
